@@ -1,6 +1,7 @@
 import BSModel.Model.HeapSmooth
 import BSModel.Proofs.HeapEffects
 import BSModel.Proofs.HeapIter
+import BSModel.Proofs.HeapDecompose
 /-! # C02: `smooth()` has exactly its documented effect
 
 Part 1 (lists only): the procedure "mark the indices `i` where items `i`, `i+1` are both strings; for the marks in
@@ -1177,5 +1178,94 @@ theorem SmoothFrame.view_others {h h' : Heap} {S : Nat → Prop} (hg : Good h) (
     (hq : ¬ S q) : idView h' q = idView h q ∧ view h' q = view h q :=
   ⟨idView_congr (f.others q hq) (fun k hk => f.old k (good_kid_lt_next hg hk)),
    view_congr (f.others q hq) (fun k hk => f.old k (good_kid_lt_next hg hk))⟩
+
+end BS.Heap
+
+namespace BS.Heap
+
+/-! ## 7. a second `smooth()` finds nothing to do -/
+
+theorem smoothAll_noop : ∀ (ts : List Nat) (h : Heap), (∀ q ∈ ts, NoAdjStr (view h q)) → smoothAll h ts = .ok h := by
+  intro ts
+  induction ts with
+  | nil => intro h _; rfl
+  | cons t ts ih =>
+    intro h hn
+    simp only [smoothAll, smoothChildren_noop (hn t (by simp))]
+    exact ih h (fun q hq => hn q (by simp [hq]))
+
+theorem inSub_refl {h : Heap} {w : Wit} (hwf : WF h w) (t : Nat) : w.inSub t t :=
+  ⟨rfl, Nat.le_refl _, by have := hwf.size_pos t; omega⟩
+
+/-- an existing object that lies beneath `t` after a smoothing pass lay beneath `t` before it: the pass detaches plain
+    strings and attaches new ones, it moves no existing object to another parent -/
+theorem smoothFrame_subtree_old {h h' : Heap} {w w' : Wit} {S : Nat → Prop} (hwf : WF h w) (hwf' : WF h' w')
+    (fr : SmoothFrame h h' S) (t : Nat) :
+    ∀ (n m : Nat), w'.pos m ≤ n → m < h.next → w'.inSub t m → w.inSub t m := by
+  intro n
+  induction n with
+  | zero =>
+    intro m hn hm hin
+    by_cases hmt : m = t
+    · rw [hmt]; exact inSub_refl hwf t
+    · exfalso
+      -- position 0: `m` is a root of `h'`, so it has no proper ancestor
+      have hr : h'.parent m = none := by
+        have := wf_pos_zero hwf' (a := m) (by omega)
+        rw [this]; exact hwf'.tree_root m
+      exact inSub_root hwf' hr t ⟨fun e => hmt e.symm, hin⟩
+  | succ n ih =>
+    intro m hn hm hin
+    by_cases hmt : m = t
+    · rw [hmt]; exact inSub_refl hwf t
+    · cases hp' : h'.parent m with
+      | none => exact absurd ⟨fun e => hmt e.symm, hin⟩ (inSub_root hwf' hp' t)
+      | some p =>
+        have hinp : w'.inSub t p := (inSub_parent hwf' hp' t).mp ⟨fun e => hmt e.symm, hin⟩
+        have hp : h.parent m = some p := by
+          rcases fr.parent m hm with a | ⟨_, _, _, _, hnone⟩
+          · rw [← a]; exact hp'
+          · rw [hnone] at hp'; cases hp'
+        have hpold : p < h.next := by
+          apply Classical.byContradiction
+          intro hge
+          have := (hwf.fresh p (by omega)).2.1
+          have hk := hwf.parent_kid m p hp
+          rw [this] at hk; cases hk
+        have hpos := wf_parent_pos' hwf' hp'
+        have := ih p (by omega) hpold hinp
+        exact ((inSub_parent hwf hp t).mpr this).2
+
+/-- **`smooth()` is idempotent**: calling it again on the result changes nothing at all — the heap is returned as it is -/
+theorem smooth_idempotent {h h' : Heap} {t : Nat} (hg : Good2 h) (hs : smooth h t = .ok h') : smooth h' t = .ok h' := by
+  obtain ⟨hg', fr, _, hv⟩ := smooth_effect hg hs
+  obtain ⟨w, hwf⟩ := hg.1
+  obtain ⟨w', hwf'⟩ := hg'.1
+  obtain ⟨ds', hd', hdo', _⟩ := descendants_docOrder hwf' t
+  unfold smooth
+  simp only [hd']
+  apply smoothAll_noop
+  intro q hq
+  have hself : t ∈ docOrder h t := by unfold docOrder; rw [pre_head]; simp
+  have hin : q ∈ docOrder h t := by
+    rcases List.mem_cons.mp hq with hqt | hq'
+    · rw [hqt]; exact hself
+    · obtain ⟨hqd, hqtag⟩ := List.mem_filter.mp hq'
+      have hqtag : (h'.kind q).isTag = true := by simpa using hqtag
+      have hqd' : q ∈ docOrder h' t := by rw [hdo']; exact List.mem_cons_of_mem _ hqd
+      -- a tag of the result is an existing object
+      have hold : q < h.next := by
+        apply Classical.byContradiction
+        intro hge
+        have hstr : h'.kind q = .str := by
+          by_cases hlt : q < h'.next
+          · exact fr.newStr q (by omega) hlt
+          · exact hg'.2 q (by omega)
+        rw [hstr] at hqtag; cases hqtag
+      have := smoothFrame_subtree_old hwf hwf' fr t (w'.pos q) q (Nat.le_refl _) hold
+        ((docOrder_mem_inSub hwf' t q).mp hqd')
+      exact (docOrder_mem_inSub hwf t q).mpr this
+  rw [hv q hin]
+  exact squash_noAdj _
 
 end BS.Heap
